@@ -48,4 +48,8 @@ View == <<meshFor = pver, idcur = pver, meshFor = -1, onCopy, last # <<>> /\ las
 EmitLeaf == (Len(hist) = MaxDepth) => PrintT(ToJson(hist))
 P3 == {"dim1", "dim2", "transform"}
 TC == {"translate", "rotate", "scale"}
+\* wider alphabets (coverage audit): the resolution parameter (sections / subdivisions / polygon) is a
+\* parameter like any other; mirrored placements and similarity maps are transform classes
+P4 == {"dim1", "dim2", "transform", "resolution"}
+TC4 == {"translate", "rotate", "scale", "mirror"}
 =============================================================================
